@@ -550,6 +550,11 @@ def account(stats, s, h, max_violations=3):
   stats['maxpoints'] = max(stats['maxpoints'], len(s.points))
   if s.horizon_hit:
     stats['horizon'] += 1
+    # fail at once: every harness treats a horizon hit as "not exhaustive" in the end, and expanding the alternatives of an
+    # execution with thousands of scheduling points costs memory quadratic in its length (a tree with a loop that waits
+    # for the virtual clock without sleeping once took 60 GB this way)
+    raise core.HarnessError('step horizon (%d steps) hit: an execution of %s does not finish within the horizon - is there a loop '
+                            'that waits for (virtual) time to pass without sleeping?' % (s.horizon, type(h).__name__))
   if s.deadlock:
     stats['deadlocks'] += 1
   out = h.outcome(s)
